@@ -45,7 +45,7 @@ func verifC09CurvePoint(t *rapid.T, g decode.BLSGroup, label string) decode.WPoi
 	}
 }
 
-var verifC09Kinds = []string{"valid", "bitflip", "bitflip", "compressed-in-slot", "compressed-in-slot", "oncurve-not-subgroup", "cofactor-component", "coord>=p", "infinity", "infinity-stray", "flags", "random-slot", "header"}
+var verifC09Kinds = []string{"valid", "bitflip", "bitflip", "compressed-in-slot", "compressed-in-slot", "oncurve-not-subgroup", "cofactor-component", "coord>=p", "infinity", "infinity-stray", "flags", "random-slot", "header", "structured-valid", "structured-valid"}
 
 func verifC09Run(t *testing.T, g decode.BLSGroup, name string, fresh func() verifC09Matrix, random func(*rapid.T, int, int) verifC09Matrix, equal func(a, b verifC09Matrix) bool) {
 	sub := "tkn20." + name + ".unmarshalBinary"
@@ -100,6 +100,13 @@ func verifC09Run(t *testing.T, g decode.BLSGroup, name string, fresh func() veri
 				val = new(big.Int).Add(decode.BLSP, big.NewInt(int64(rapid.IntRange(0, 9).Draw(t, "small"))))
 			}
 			val.FillBytes(s[48*l : 48*l+48])
+		case "structured-valid":
+			// a member built by the reference: ±k·G for small k (k = 0: the identity), uncompressed
+			P := decode.WMul(big.NewInt(int64(rapid.IntRange(0, 48).Draw(t, "k"))), decode.BLSGen(g))
+			if rapid.Bool().Draw(t, "neg") {
+				P = decode.WNeg(P)
+			}
+			copy(s, decode.BLSEncode(g, P, false))
 		case "infinity":
 			for i := range s {
 				s[i] = 0
@@ -165,6 +172,13 @@ func verifC09Run(t *testing.T, g decode.BLSGroup, name string, fresh func() veri
 		if valid && !accepted {
 			vlib.Report(t, "C09/completeness/"+sub+"/rejects-library-encoding", fmt.Sprintf("data=%x err=%v", b, uerr))
 			return
+		}
+		if (kind == "structured-valid" || kind == "infinity") && refOK {
+			vlib.Class(sub, "reference-constructed valid encoding ("+kind+")")
+			if !accepted {
+				vlib.Report(t, "C09/completeness/"+sub+"/rejects-valid-encoding", fmt.Sprintf("kind=%s slot=%d data=%x: every entry is the canonical uncompressed encoding of a member, yet the matrix is rejected: %v", kind, k, b, uerr))
+				return
+			}
 		}
 		if !accepted {
 			return
